@@ -251,8 +251,68 @@ def plan (args : List String) : String :=
     | _, _, _, _, _ => "bad-op"
   | _ => "bad-op"
 
+/-! op `planms` (a DataProcessor with several input streams):
+     planms M=<ts|sort:<L>:<±f,…>> C=<cmd>|… A=<stream of row 1><stream of row 2>… S=<n.n.…>/<n.n.…>/… R=<rows IN MERGE ORDER>
+   → "ms dp=<name[flags]> fast=<0|1> k=<streams> | ok cmp=<seq|set> n=<rows> <row>;…"  |  "… | skip=not-judged" -/
+
+def wfRunMS (tableCols : List String) (cs : List PCmd) : Option WF :=
+  let w0 : WF := { ints := ["id", "x", "w"], cols := tableCols.foldl add ["id", "x", "w"] }
+  cs.foldl (fun (acc : Option WF) (c : PCmd) => acc.bind (fun w => wfStep false w c)) (some w0)
+
+def parseMergeBy (s : String) : Option MergeBy :=
+  if s == "ts" then some .timestamp
+  else match parsePCmd s with
+    | some (.sort l ks) => some (.sort l ks)
+    | _ => none
+
+def parseSizes (s : String) : Option (List Nat) :=
+  if s.isEmpty then some []
+  else (s.splitOn ".").mapM (fun x => match natStrict? x with
+    | some n => if n ≥ 1 && n ≤ 1000 then some n else none
+    | none => none)
+
+def parseAsg (s : String) : Option (List Nat) :=
+  s.toList.mapM (fun c => if '0' ≤ c && c ≤ '9' then some (c.toNat - 48) else none)
+
+def strictlyOrdered (ks : List (String × Bool)) : Table → Bool
+  | a :: b :: rest => lessKeys ks a b && strictlyOrdered ks (b :: rest)
+  | _ => true
+
+def planms (args : List String) : String :=
+  match args with
+  | [m, c, a, s, r] =>
+    if !(m.startsWith "M=" && c.startsWith "C=" && a.startsWith "A=" && s.startsWith "S=" && r.startsWith "R=") then "bad-op" else
+    match parseMergeBy (m.drop 2).toString, ((c.drop 2).toString.splitOn "|").mapM parsePCmd, parseAsg (a.drop 2).toString,
+          ((s.drop 2).toString.splitOn "/").mapM parseSizes, parseRows (r.drop 2).toString with
+    | some mb, some cs, some asg, some sizes, some t =>
+      let k := sizes.length
+      if k < 1 || k > 4 || cs.length > 4 || cs.isEmpty || !tableOk t || asg.length != t.length || !asg.all (· < k) then "bad-op"
+      else
+        let all := keysOf t
+        let tp := t.map (padRow all)
+        let tsOk := match mb with
+          | .timestamp => t.all (fun row => match row.lookup "timestamp" with | some (.int i) => decide (i ≥ 0) | _ => false)
+          | .sort _ ks => ks.all (fun kk => all.contains kk.1)
+        if !tsOk || !strictlyOrdered mb.keys tp then "bad-op"
+        else
+          match wfRunMS all cs, (cs.flatMap PCmd.dps).head? with
+          | some w, some d =>
+            let cut := match mb.limit with | some l => decide (l < t.length) | none => false
+            if (d.readsUnmerged || k == 1) && cut then "bad-op"     -- neither the fast path nor a single stream applies the merge limit: not judged
+            else
+              let cmp := if w.ordered then "seq" else "set"
+              let streams := List.zipWith cutBatches sizes (dealStreams k asg tp)
+              let head := s!"ms dp={flagStr d} fast={b01 d.readsUnmerged} k={k} | "
+              match semChain cs (takeOpt mb.limit tp) with
+              | none => head ++ "skip=not-judged"
+              | some _ => head ++ showRows cmp (runMS (digestKey valCode listCode) mb cs streams)
+          | _, _ => "bad-op"
+    | _, _, _, _, _ => "bad-op"
+  | _ => "bad-op"
+
 def handle (cmd : String) (args : List String) : Option String :=
   match cmd with
   | "plan" => some (plan args)
+  | "planms" => some (planms args)
   | _ => none
 end Oracle.C06P
